@@ -33,6 +33,13 @@ theorem checkTimes_ne_zero (w : World) (mt : Nat) (nm : String) :
     · simp [ht] <;> omega
     · simp [ht] <;> omega
 
+theorem checkTimes_missing (w : World) (mt : Nat) (nm : String) :
+    checkTimes w mt nm = -1 ↔ w.mtime nm = none := by
+  unfold checkTimes
+  cases h : w.mtime nm with
+  | none => simp
+  | some t => simp; split <;> omega
+
 /-- what "every inherited program is not newer and is loaded" means -/
 def InheritsFresh (w : World) (mt : Nat) (inhs : List String) : Prop :=
   ∀ i, i ∈ inhs →
@@ -100,6 +107,7 @@ def MayUse (w : World) (name : String) : Prop :=
     (w.simulPath = "" ∨ ∀ t, w.mtime w.simulPath = some t → t ≤ mt) ∧
     (∃ t, w.mtime name = some t ∧ t ≤ mt) ∧
     (∀ i, i ∈ b.includes → ∃ t, w.mtime i = some t ∧ t ≤ mt) ∧
+    (∀ f, f ∈ b.absent → w.mtime f = none) ∧
     (b.name.length = 0 ∨ b.name = name) ∧
     InheritsFresh w mt b.inherits
 
@@ -133,9 +141,12 @@ theorem never_stale (w : World) (name : String) (h : loadBinary w name = .use) :
     next c5 =>
     split at h
     · cases h
+    next ca =>
+    split at h
+    · cases h
     next c6 =>
     refine ⟨mt, b, hm, hb, by simpa using c0, by simpa using c2, by simpa using c3, by simpa using c4, ?_,
-      (checkTimes_pos w mt name).mp c1, ?_, ?_, (checkInherits_use w mt b.inherits).mp h⟩
+      (checkTimes_pos w mt name).mp c1, ?_, ?_, ?_, (checkInherits_use w mt b.inherits).mp h⟩
     · by_cases hp : w.simulPath = ""
       · exact Or.inl hp
       · right
@@ -148,6 +159,13 @@ theorem never_stale (w : World) (name : String) (h : loadBinary w name = .use) :
       apply c5
       rw [List.any_eq_true]
       exact ⟨i, hi, by simpa using hc⟩
+    · intro f hf
+      apply (checkTimes_missing w mt f).mp
+      apply Classical.byContradiction
+      intro hc
+      apply ca
+      rw [List.any_eq_true]
+      exact ⟨f, hf, by simpa using hc⟩
     · by_cases hl : b.name.length = 0
       · exact Or.inl hl
       · right
@@ -159,7 +177,7 @@ theorem never_stale (w : World) (name : String) (h : loadBinary w name = .use) :
 /-- the converse: whenever those conditions hold the binary is used (the decision is exactly the property's rule,
     not merely a safe approximation of it) -/
 theorem fresh_binary_used (w : World) (name : String) (h : MayUse w name) : loadBinary w name = .use := by
-  obtain ⟨mt, b, hm, hb, m0, m1, m2, m3, hsim, hs, hi, hn, hinh⟩ := h
+  obtain ⟨mt, b, hm, hb, m0, m1, m2, m3, hsim, hs, hi, habs, hn, hinh⟩ := h
   unfold loadBinary
   rw [hm, hb]
   simp only [m0, Bool.not_true, Bool.false_eq_true, if_false]
@@ -173,12 +191,17 @@ theorem fresh_binary_used (w : World) (name : String) (h : MayUse w name) : load
     rw [List.any_eq_true]
     rintro ⟨i, hi', hc⟩
     exact (checkTimes_pos w mt i).mpr (hi i hi') (by simpa using hc)
+  have ca : ¬ (b.absent.any (fun f => checkTimes w mt f ≠ -1) = true) := by
+    rw [List.any_eq_true]
+    rintro ⟨f, hf, hc⟩
+    have := (checkTimes_missing w mt f).mpr (habs f hf)
+    simp [this] at hc
   have c6 : ¬ (b.name.length > 0 ∧ b.name ≠ name) := by
     rintro ⟨x, y⟩
     rcases hn with hn | hn
     · omega
     · exact y hn
-  simp only [c1, m1, m2, m3, c5, c6, ne_eq, not_true_eq_false, if_false]
+  simp only [c1, m1, m2, m3, c5, ca, c6, ne_eq, not_true_eq_false, if_false]
   rw [if_neg cs]
   exact (checkInherits_use w mt b.inherits).mpr hinh
 
@@ -234,7 +257,7 @@ theorem never_stale_transitive (w : World) (name : String) (h : loadBinary w nam
       ∀ i, i ∈ b.inherits → ∀ r, Reach w i r →
         ∃ lp, w.progs.lookup r = some lp ∧ (∀ f, f ∈ lp.files → ∀ t, w.mtime f = some t → t ≤ mt) ∧
           (∀ t, w.mtime (binPath w r) = some t → t ≤ mt) := by
-  obtain ⟨mt, b, hm, hb, _, _, _, _, _, _, _, _, hinh⟩ := never_stale w name h
+  obtain ⟨mt, b, hm, hb, _, _, _, _, _, _, _, _, _, hinh⟩ := never_stale w name h
   refine ⟨mt, b, hm, hb, ?_⟩
   intro i hi r hr
   exact treeNewer_false_reach w mt hr treeFuel (hinh i hi).2.2.2
@@ -271,7 +294,7 @@ def resolveIncludeP (w : World) (cands : List String) : Option String :=
 theorem include_resolution_partial (w : World) (name : String) (pre post : List String) (r : String)
     (h : loadBinary w name = .use) (hr : ∀ b, w.bins.lookup (binPath w name) = some b → r ∈ b.includes)
     (hpre : ∀ c, c ∈ pre → w.mtime c = none) : resolveIncludeP w (pre ++ r :: post) = some r := by
-  obtain ⟨mt, b, _, hb, _, _, _, _, _, _, hi, _, _⟩ := never_stale w name h
+  obtain ⟨mt, b, _, hb, _, _, _, _, _, _, hi, _, _, _⟩ := never_stale w name h
   obtain ⟨t, ht, _⟩ := hi r (hr b hb)
   unfold resolveIncludeP
   rw [List.find?_append]
@@ -281,6 +304,93 @@ theorem include_resolution_partial (w : World) (name : String) (pre post : List 
     simp [hpre c hc]
   rw [this]
   simp [ht]
+
+/-- what `inc_open` found and what it noted as missing -/
+theorem incOpen_spec (w : World) : ∀ (cands : List String) (r : String) (missed : List String),
+    incOpen w cands = some (r, missed) →
+      (∃ post, cands = missed ++ r :: post) ∧ (w.mtime r).isSome = true ∧ ∀ c, c ∈ missed → w.mtime c = none := by
+  intro cands
+  induction cands with
+  | nil => intro r missed h; simp [incOpen] at h
+  | cons c rest ih =>
+    intro r missed h
+    unfold incOpen at h
+    by_cases hc : (w.mtime c).isSome = true
+    · simp only [hc, if_true, Option.some.injEq, Prod.mk.injEq] at h
+      obtain ⟨h1, h2⟩ := h
+      subst h1 h2
+      exact ⟨⟨rest, rfl⟩, hc, by intro x hx; cases hx⟩
+    · simp only [hc, Bool.false_eq_true, if_false] at h
+      cases hr : incOpen w rest with
+      | none => rw [hr] at h; simp at h
+      | some p =>
+        rw [hr] at h
+        simp only [Option.map_some, Option.some.injEq, Prod.mk.injEq] at h
+        obtain ⟨h1, h2⟩ := h
+        obtain ⟨⟨post, hp⟩, hex, hmiss⟩ := ih p.1 p.2 (by rw [hr])
+        subst h1 h2
+        refine ⟨⟨post, by rw [hp]; rfl⟩, hex, ?_⟩
+        intro x hx
+        rcases List.mem_cons.mp hx with e | e
+        · subst e
+          cases hm : w.mtime x with
+          | none => rfl
+          | some t => simp [hm] at hc
+        · exact hmiss x e
+
+/-- **includes_resolve_as_recorded**: the FULL include-resolution statement, for the code with the '!' entries.  Take any
+    #include directive (its candidates in search order) as `inc_open` resolved it when the program was compiled in world
+    `w0`: it opened `r` and noted the candidates `missed` before it.  If the binary lists `r` among the files read and
+    every noted candidate among its '!' entries, then whenever `load_binary` uses the binary in a later world `w`, the
+    directive still resolves to `r` — no file that shadows a recorded include file goes unnoticed, whatever its
+    modification time. -/
+theorem includes_resolve_as_recorded (w0 w : World) (name : String) (b : BinFile) (cands : List String) (r : String)
+    (missed : List String) (hcomp : incOpen w0 cands = some (r, missed))
+    (hb : w.bins.lookup (binPath w name) = some b) (hr : r ∈ b.includes) (hm : ∀ c, c ∈ missed → c ∈ b.absent)
+    (h : loadBinary w name = .use) : resolveIncludeP w cands = some r := by
+  obtain ⟨⟨post, hp⟩, _, _⟩ := incOpen_spec w0 cands r missed hcomp
+  obtain ⟨mt, b', _, hb', _, _, _, _, _, _, hi, habs, _, _⟩ := never_stale w name h
+  rw [hb] at hb'
+  cases hb'
+  obtain ⟨t, ht, _⟩ := hi r hr
+  rw [hp]
+  unfold resolveIncludeP
+  rw [List.find?_append]
+  have : missed.find? (fun c => (w.mtime c).isSome) = none := by
+    rw [List.find?_eq_none]
+    intro c hc
+    simp [habs c (hm c hc)]
+  rw [this]
+  simp [ht]
+
+/-- non-vacuity: "s.h" found in /include when a.c was compiled (d/s.h noted as missing); later d/s.h appears, older than
+    everything: the binary is not used any more; without the new file it is, and the directive resolves as recorded -/
+example :
+    let w0 : World := { files := [("d/a.c", 100), ("include/s.h", 90)] }
+    let bin : BinFile := { magic := magicId, driverId := driverId, configId := 0, includes := ["include/s.h"],
+                           absent := ["d/s.h"], name := "d/a.c", inherits := [] }
+    let w : World := { files := [("B/a", 200), ("d/a.c", 100), ("include/s.h", 90)], bins := [("B/a", bin)],
+                       binOf := fun _ => "B/a" }
+    incOpen w0 ["d/s.h", "include/s.h"] = some ("include/s.h", ["d/s.h"]) ∧
+      loadBinary w "d/a.c" = .use ∧ resolveIncludeP w ["d/s.h", "include/s.h"] = some "include/s.h" ∧
+      loadBinary { w with files := ("d/s.h", 80) :: w.files } "d/a.c" = .stale "shadowed" := by
+  decide
+
+/-- **parent_include_shadow_partial**: the part of the open finding C17-unsaved-parent-include-shadowed that does hold —
+    when a binary is used, the file that an include directive of ANY inherited program (direct or not, saved or not)
+    resolves to now, being one of the files that program in memory was built from, is not newer than the binary.  A
+    shadowing file NEWER than the binary is therefore always noticed; only an older one slips through. -/
+theorem parent_include_shadow_partial (w : World) (name : String) (h : loadBinary w name = .use) :
+    ∃ mt b, w.mtime (binPath w name) = some mt ∧ w.bins.lookup (binPath w name) = some b ∧
+      ∀ i, i ∈ b.inherits → ∀ q, Reach w i q → ∀ lp, w.progs.lookup q = some lp → ∀ cands r,
+        resolveIncludeP w cands = some r → r ∈ lp.files → ∀ t, w.mtime r = some t → t ≤ mt := by
+  obtain ⟨mt, b, hm, hb, hall⟩ := never_stale_transitive w name h
+  refine ⟨mt, b, hm, hb, ?_⟩
+  intro i hi q hq lp hl cands r _ hr t ht
+  obtain ⟨lp', hl', hfiles, _⟩ := hall i hi q hq
+  rw [hl] at hl'
+  cases hl'
+  exact hfiles r hr t ht
 
 /-! ## (a') what may be saved: no binary for a program laid out for a parent that is no longer current -/
 
@@ -661,6 +771,29 @@ theorem every_pointer_member_handled :
     (a function name, a class name …) emitted into the byte code breaks this obligation. -/
 theorem only_switch_keys_are_addresses : Gen.C17.intptrOperands = modelIntptrOperands := by
   decide
+
+/-- **every_block_pointer_recreated**: every pointer stored inside the saved program block — the pointer-typed members of
+    the structures that live there and the elements of the `char **` tables, read from lib/lpc/program.h on every run — is
+    one of the four the model knows, and `load_binary` assigns each of them after reading the block (assignments read from
+    load_binary).  A new pointer member in one of these structures, or a dropped re-creation, breaks the obligation. -/
+theorem every_block_pointer_recreated :
+    (∀ p, p ∈ Gen.C17.blockStructPointers ++ Gen.C17.blockPointerTables → p ∈ modelBlockPointers) ∧
+      (∀ p, p ∈ modelBlockPointers → p ∈ Gen.C17.blockPointersRecreated) ∧
+      (∀ p, p ∈ modelBlockPointers → p ∈ Gen.C17.blockStructPointers ++ Gen.C17.blockPointerTables) := by
+  decide
+
+/-- **patch_offsets_read_unsigned**: with the C types read from the source on this run — the 16-bit entry the code
+    generator records, the cast through which patch_out and patch_in read it, the type of the table bounds — every program
+    offset below 65536 arrives unchanged (in particular offsets and tables above 32767 are not sign-extended), on the
+    saving and on the loading side.  A narrowed type or a dropped cast breaks this obligation. -/
+theorem patch_offsets_read_unsigned (raw : Nat) (h : raw < 65536) :
+    readPatchOffset Gen.C17.patchOutOffsetCast raw = raw ∧ readPatchOffset Gen.C17.patchInOffsetCast raw = raw ∧
+      readTableBound Gen.C17.patchOutBoundsType raw = raw ∧ readTableBound Gen.C17.patchInBoundsType raw = raw ∧
+      Gen.C17.patchEntryType = "short" := by
+  have : raw % 65536 = raw := Nat.mod_eq_of_lt h
+  refine ⟨?_, ?_, ?_, ?_, by decide⟩ <;>
+    simp [readPatchOffset, readTableBound, Gen.C17.patchOutOffsetCast, Gen.C17.patchInOffsetCast,
+      Gen.C17.patchOutBoundsType, Gen.C17.patchInBoundsType, this]
 
 /-- the model of qsort.c mirrors as many statements as qSort + quickSort have -/
 theorem qsort_statements_tied : Gen.C17.qsortStatements = modelQsortStatements := by decide
